@@ -134,14 +134,7 @@ Section Run.
     match it with
     | IDrain d => drain_next_at cfg i
     | IInto t => into_next_at cfg i
-    | IFilter f =>
-        r <- filter_next cfg (filter_fuel f) f ;;
-        iter_set i (Some (IFilter (snd r))) ;;;
-        match fst r with
-        | FYield e => ret (Some e)
-        | FDone => ret None
-        | FPanic => panic
-        end
+    | IFilter f => filter_next_at cfg (filter_fuel f) i
     end.
 
   (* Iterator::nth, the provided method (none of the four iterators may override it observably):
@@ -318,14 +311,7 @@ Section Run.
           match it with
           | IDrain d => r <- drain_next_at cfg i ;; with_ret (yield r)
           | IInto t => r <- into_next_at cfg i ;; with_ret (yield r)
-          | IFilter f =>
-              r <- filter_next cfg (filter_fuel f) f ;;
-              iter_set i (Some (IFilter (snd r))) ;;;
-              match fst r with
-              | FYield e => with_ret (yield (Some e))
-              | FDone => with_ret (yield None)
-              | FPanic => panic
-              end
+          | IFilter f => r <- filter_next_at cfg (filter_fuel f) i ;; with_ret (yield r)
           end
         else SKIP
     | ONth i k =>
